@@ -232,13 +232,15 @@ class Call(Leaf):
         return self.grammar.rulemap.get(self.name, self)
 
     def _parse(self, ctx: Ctx) -> Any:
+        if self._rule:
+            return ctx.expcall(self._rule._parse)
+        # NOTE: only the lookup may be reported as a missing rule: a KeyError
+        #   raised while the rule runs (by a semantic action) is not ours
         try:
-            if self._rule:
-                return ctx.expcall(self._rule._parse)
             parse = ctx.find_rule(self.name)
-            return ctx.expcall(parse)
         except KeyError as e:
             raise ctx.newexcept(self.name, excls=FailedRef) from e
+        return ctx.expcall(parse)
 
     def missing_rules(self, rulenames: set[str]) -> set[str]:
         if self.name not in rulenames:
